@@ -438,7 +438,8 @@ fn huge_slice_case(ctx: &mut Ctx) {
         return;
     }
     let at = cands[ctx.rng.usize_below(cands.len())] as usize;
-    let hole: usize = [1usize << 32, (1 << 32) - 16, (1 << 32) - at.min(1 << 31)][ctx.rng.usize_below(3)];
+    let g4 = super::util::G4;
+    let hole: usize = [g4, g4.wrapping_sub(16), g4.wrapping_sub(at.min(1 << 31))][ctx.rng.usize_below(3)];
     mutate::relocate(&mut b, at as u64, hole as u64);
     let bytes = b.bytes.clone();
     if bytes.len() + hole > super::util::HUGE_LEN {
@@ -459,7 +460,7 @@ fn huge_slice_case(ctx: &mut Ctx) {
                     let mut ok = true;
                     if let Some(shdrs) = f.section_headers() {
                         for sh in shdrs.iter() {
-                            if sh.sh_offset >= 1 << 32 {
+                            if sh.sh_offset >= 1u64 << 32 {
                                 ctx.count("huge-slice:sections-at>=2^32");
                             }
                             if ok && !judge_section(ctx, &f, view, enc, &sh, &what) {
